@@ -33,7 +33,7 @@ contract(
         ('one_hook_pair_per_module',
          'all(m.fwd_hooks == old(m.fwd_hooks) + 1 and m.bwd_hooks == old(m.bwd_hooks) + 1 for m in layers)'),
     ],
-    loops={'0': dict(index='i', invariants=[
+    loops={'iter:self._layers': dict(index='i', invariants=[
         ('hooked_prefix', 'all(key_at(layers, j).fwd_hooks == old(key_at(layers, j).fwd_hooks) + 1 and '
                           'key_at(layers, j).bwd_hooks == old(key_at(layers, j).bwd_hooks) + 1 for j in range(i))'),
         ('untouched_suffix', 'all(key_at(layers, j).fwd_hooks == old(key_at(layers, j).fwd_hooks) and '
